@@ -22,7 +22,7 @@ try:
 except Exception:
     LOCALS = {}
 
-PURE_FUNCS = {"quote", "unquote", "join_key", "key_name", "key_extension", "len", "type", "isinstance", "str", "bool", "int", "float", "repr", "tuple", "list", "dict", "set", "sorted", "min", "max", "any", "all"}
+PURE_FUNCS = {"get_cache", "get_store", "state_types_registry", "command_registry", "quote", "unquote", "join_key", "key_name", "key_extension", "len", "type", "isinstance", "str", "bool", "int", "float", "repr", "tuple", "list", "dict", "set", "sorted", "min", "max", "any", "all"}
 # methods without side effects in this code base (path constructors, printers, accessors)
 PURE_METHODS = {"path_for_key", "metadata_path_for_key", "to_path", "encode", "get", "segment_name", "is_volatile", "is_dir", "contains",
                 "startswith", "endswith", "split", "join", "lower", "upper", "strip", "items", "keys", "values", "key_name", "key_extension",
@@ -391,6 +391,153 @@ def _restore_compare_order(fn, ref):
     return k
 
 
+class _Fold(ast.NodeTransformer):
+    """constant folding of what parameter substitution leaves behind: `a if True else b`, `if False: ...`, `not True`,
+    `None is None`, `True and x`"""
+    def __init__(self):
+        self.n = 0
+
+    @staticmethod
+    def _const(e):
+        return isinstance(e, ast.Constant) and (e.value is None or isinstance(e.value, bool))
+
+    def visit_UnaryOp(self, node):
+        self.generic_visit(node)
+        if isinstance(node.op, ast.Not) and self._const(node.operand):
+            self.n += 1
+            return ast.copy_location(ast.Constant(not node.operand.value), node)
+        return node
+
+    def visit_Compare(self, node):
+        self.generic_visit(node)
+        if len(node.ops) == 1 and isinstance(node.ops[0], (ast.Is, ast.IsNot)) and self._const(node.left) and self._const(node.comparators[0]):
+            v = node.left.value is node.comparators[0].value
+            self.n += 1
+            return ast.copy_location(ast.Constant(v if isinstance(node.ops[0], ast.Is) else not v), node)
+        return node
+
+    def visit_BoolOp(self, node):
+        self.generic_visit(node)
+        is_and = isinstance(node.op, ast.And)
+        vals = []
+        for v in node.values:
+            if self._const(v) and isinstance(v.value, bool):
+                if v.value is is_and:
+                    self.n += 1
+                    continue            # neutral element
+                if not vals:
+                    self.n += 1
+                    return ast.copy_location(ast.Constant(v.value), node)     # absorbing element in first position decides
+            vals.append(v)
+        if not vals:
+            return ast.copy_location(ast.Constant(is_and), node)
+        if len(vals) == 1:
+            return vals[0]
+        node.values = vals
+        return node
+
+    def visit_IfExp(self, node):
+        self.generic_visit(node)
+        if self._const(node.test):
+            self.n += 1
+            return node.body if node.test.value else node.orelse
+        return node
+
+    def _block(self, stmts):
+        out = []
+        for s in stmts:
+            r = self.visit(s)
+            if r is None:
+                continue
+            out.extend(r if isinstance(r, list) else [r])
+        return out
+
+    def visit_If(self, node):
+        node.test = self.visit(node.test)
+        node.body = self._block(node.body) or [ast.copy_location(ast.Pass(), node)]
+        node.orelse = self._block(node.orelse)
+        if self._const(node.test):
+            self.n += 1
+            chosen = node.body if node.test.value else node.orelse
+            return chosen or [ast.copy_location(ast.Pass(), node)]
+        return node
+
+
+def _fold_constants(fn):
+    f = _Fold()
+    for fld in ("body",):
+        fn.body = f._block(fn.body) or [ast.Pass()]
+    if f.n:
+        ast.fix_missing_locations(fn)
+    return f.n
+
+
+def _expand_generator_idioms(fn):
+    """`yield from (E for x in it if c)` -> `for x in it: if c: yield E`;  `return any(c for x in it)` -> `for x in it: if c: return True`
+    followed by `return False` (and the dual for all()). Behaviour-preserving; the rules reason about loops."""
+    k = 0
+
+    def loop_of(gen, leaf):
+        body = leaf
+        for comp in reversed(gen.generators):
+            if comp.is_async:
+                return None
+            for c in reversed(comp.ifs):
+                body = [ast.If(test=c, body=body, orelse=[])]
+            body = [ast.For(target=comp.target, iter=comp.iter, body=body, orelse=[])]
+        return body
+
+    for node in ast.walk(fn):
+        for b in _blocks_of(node):
+            i = 0
+            while i < len(b):
+                st = b[i]
+                repl = None
+                if isinstance(st, ast.Expr) and isinstance(st.value, ast.YieldFrom) and isinstance(st.value.value, ast.GeneratorExp):
+                    g = st.value.value
+                    repl = loop_of(g, [ast.Expr(value=ast.Yield(value=g.elt))])
+                elif isinstance(st, ast.Return) and isinstance(st.value, ast.Call) and isinstance(st.value.func, ast.Name) \
+                        and st.value.func.id in ("any", "all") and len(st.value.args) == 1 and not st.value.keywords \
+                        and isinstance(st.value.args[0], ast.GeneratorExp):
+                    g = st.value.args[0]
+                    is_any = st.value.func.id == "any"
+                    cond = g.elt if is_any else ast.UnaryOp(op=ast.Not(), operand=g.elt)
+                    inner = loop_of(g, [ast.If(test=cond, body=[ast.Return(value=ast.Constant(is_any))], orelse=[])])
+                    if inner is not None:
+                        repl = inner + [ast.Return(value=ast.Constant(not is_any))]
+                if repl:
+                    for r in repl:
+                        ast.copy_location(r, st)
+                        ast.fix_missing_locations(r)
+                    b[i:i + 1] = repl
+                    k += 1
+                    i += len(repl)
+                    continue
+                i += 1
+    return k
+
+
+def _dict_literals_to_calls(tree):
+    """`{"a": x, "b": y}` with identifier keys is rewritten to `dict(a=x, b=y)` (same mapping, same evaluation order)."""
+    import keyword
+    k = 0
+
+    class D(ast.NodeTransformer):
+        def visit_Dict(self, node):
+            nonlocal k
+            self.generic_visit(node)
+            if node.keys and all(isinstance(x, ast.Constant) and isinstance(x.value, str) and x.value.isidentifier() and not keyword.iskeyword(x.value)
+                                 for x in node.keys) and len({x.value for x in node.keys}) == len(node.keys):
+                k += 1
+                return ast.copy_location(ast.Call(func=ast.Name(id="dict", ctx=ast.Load()), args=[],
+                                                  keywords=[ast.keyword(arg=x.value, value=v) for x, v in zip(node.keys, node.values)]), node)
+            return node
+    D().visit(tree)
+    if k:
+        ast.fix_missing_locations(tree)
+    return k
+
+
 def _find_fn(m, qual):
     if "." in qual:
         cn, mn = qual.split(".", 1)
@@ -462,8 +609,19 @@ def canonicalise(repo):
     definitions); (3) locals the reference function does not have are substituted into their uses; (4) negated if/else swapped,
     nested ifs merged; (5) `x = e; return x` inlined; (6) ==/!= operand order restored."""
     done = []
+    for m in repo.modules.values():
+        k = _dict_literals_to_calls(m.tree)
+        if k:
+            done.append((m.name, "<module>", "<dict literals as dict() calls>", k))
     from .inline import inline_new_helpers
     done += inline_new_helpers(repo)
+    touched = {(d[0], d[1]) for d in done if d[2].startswith("<helper")}
+    for m in repo.modules.values():
+        for fn in ast.walk(m.tree):
+            if isinstance(fn, (ast.FunctionDef, ast.AsyncFunctionDef)) and (m.name, fn.name) in touched:
+                k = _fold_constants(fn)
+                if k:
+                    done.append((m.name, fn.name, "<constants folded>", k))
     # (2) rename table and (3) new locals, interleaved: a substitution may complete the defining form of another local
     def rename_pass(modname, qual, fn, ent):
         for _ in range(3):     # a few rounds: patterns mention other locals only as metavariables, so one is usually enough
@@ -504,6 +662,9 @@ def canonicalise(repo):
     for m in repo.modules.values():
         for fn in ast.walk(m.tree):
             if isinstance(fn, (ast.FunctionDef, ast.AsyncFunctionDef)):
+                k = _expand_generator_idioms(fn)
+                if k:
+                    done.append((m.name, fn.name, "<generator idioms expanded>", k))
                 _strip_double_not(fn)
                 k = _normalise_negated_ifs(fn)
                 if k:
